@@ -53,7 +53,7 @@ FIELDS = {
     ('SliceOp', 'start'): OP, ('SliceOp', 'stop'): OP, ('SliceOp', 'step'): OP,
     ('CallOp', 'name'): STR, ('CallOp', 'args'): LIST(OP, owned=True),
     ('DictOp', 'd'): LIST(Ty('tuple2op'), owned=True),
-    ('LambdaOp', 'args'): LIST(OBJ('NameOp'), owned=True), ('LambdaOp', 'expr'): OP,
+    ('LambdaOp', 'args'): LIST(OP, owned=True), ('LambdaOp', 'expr'): OP,
     # PLY objects
     ('LexToken', 'value'): ANY, ('LexToken', 'type'): STR, ('LexToken', 'lexer'): OBJ('Lexer'),
     ('LexToken', 'lineno'): INT, ('LexToken', 'lexpos'): INT,
@@ -87,6 +87,14 @@ class Shapes:
             for c in self.src.mro(cls):
                 if (c, field) in FIELDS:
                     return FIELDS[(c, field)]
+            # an abstract class: the field as its subclasses declare it, if they agree
+            kinds = {}
+            for c in self.src.subclasses(cls):
+                if (c, field) in FIELDS:
+                    t = FIELDS[(c, field)]
+                    kinds[(t.kind, str(t.arg))] = t
+            if len(kinds) == 1:
+                return list(kinds.values())[0]
             return None
         return FIELDS.get((cls, field))
 
